@@ -484,12 +484,23 @@ Proof.
 Qed.
 
 (* ------------------------------------------------------------------ from_email, after parse_email *)
-Lemma from_email_unparsed O data u us : from_email O true data (u :: us) = FGroup (u :: us).
-Proof. reflexivity. Qed.
-Lemma from_email_parsed O validate data : from_email O validate data [] = from_raw O validate data.
-Proof. unfold from_email. now rewrite andb_false_r. Qed.
 Lemma from_email_lazy O data us : from_email O false data us = FOk (init data).
 Proof. reflexivity. Qed.
+Lemma from_email_group O data us :
+  match from_raw O true data with
+  | FOk s => from_email O true data us = match us with [] => FOk s | _ => FGroup us end
+  | FGroup es => from_email O true data us = FGroup (us ++ es)
+  | FCrash c => from_email O true data us = FCrash c
+  end.
+Proof. unfold from_email. destruct (from_raw O true data); reflexivity. Qed.
+Lemma from_email_accept_iff O data us :
+  (exists s, from_email O true data us = FOk s) <-> us = [] /\ exists s, from_raw O true data = FOk s.
+Proof.
+  pose proof (from_email_group O data us) as H. destruct (from_raw O true data) as [s|es|c]; rewrite H.
+  - destruct us; split; [eauto | eauto | intros [s' E]; discriminate | intros [E _]; discriminate].
+  - split; [intros [s E]; discriminate | intros [_ [s E]]; discriminate].
+  - split; [intros [s E]; discriminate | intros [_ [s E]]; discriminate].
+Qed.
 
 (* ------------------------------------------------------------------ the statement in its final shape *)
 Section Final.
